@@ -167,6 +167,9 @@ impl Counts {
     }
 }
 impl Family for Counts {
+    fn ambient(&self, idx: u64) -> u64 {
+        crate::engine::rot(idx)
+    }
     fn name(&self) -> String {
         "column-counts".into()
     }
@@ -230,6 +233,9 @@ struct Names {
     lens: Vec<usize>,
 }
 impl Family for Names {
+    fn ambient(&self, idx: u64) -> u64 {
+        crate::engine::rot(idx)
+    }
     fn name(&self) -> String {
         "name-lengths".into()
     }
@@ -276,6 +282,9 @@ struct TypesFlags {
     flags: Vec<u16>,
 }
 impl Family for TypesFlags {
+    fn ambient(&self, idx: u64) -> u64 {
+        crate::engine::rot(idx)
+    }
     fn name(&self) -> String {
         "types-x-flag-words".into()
     }
@@ -311,6 +320,9 @@ struct PrepareShapes {
     ids: Vec<u32>,
 }
 impl Family for PrepareShapes {
+    fn ambient(&self, idx: u64) -> u64 {
+        crate::engine::rot(idx)
+    }
     fn name(&self) -> String {
         "prepare-ids-and-count-pairs".into()
     }
@@ -413,6 +425,9 @@ impl MetaHistories {
     }
 }
 impl Family for MetaHistories {
+    fn ambient(&self, idx: u64) -> u64 {
+        crate::engine::rot(idx)
+    }
     fn name(&self) -> String {
         format!("metadata-histories-depth-{}", self.depth)
     }
